@@ -36,12 +36,12 @@ class ListFacts:
         # list end fields: fields set to None in __init__
         init = prog.method(self.lst, "__init__")
         self.ends: List[str] = []
-        for n in walk_own(init.node):
-            if isinstance(n, ast.Assign) and isinstance(n.value, ast.Constant) and n.value.value is None:
-                for t in n.targets:
-                    d = dotted(t)
-                    if d and len(d) == 2 and d[0] == init.self_name:
-                        self.ends.append(d[1])
+        from ..util import iter_stores
+        for t, v, _st in iter_stores(init.node):
+            if isinstance(v, ast.Constant) and v.value is None:
+                d = dotted(t)
+                if d and len(d) == 2 and d[0] == init.self_name and d[1] not in self.ends:
+                    self.ends.append(d[1])
         if len(self.ends) != 2:
             raise AnalysisError(f"list end fields unrecognised: {self.ends}")
         # size field: what __len__ returns
@@ -58,8 +58,18 @@ class ListFacts:
         self.next_link, self.prev_link = self._orient()
 
     def _orient(self) -> Tuple[str, str]:
-        # iter_nodes / __iter__: node = self.<head>; while ...: node = node.<next>
-        for f in self.lst.methods.values():
+        # the forward direction is the one __iter__ walks: __iter__ itself, or the generator method it draws from
+        # (node = self.<head>; while ...: node = node.<next>); other traversals (a reversed iterator) do not define it
+        it = self.lst.methods.get("__iter__")
+        order = []
+        if it is not None:
+            order.append(it)
+            for c in ast.walk(it.node):
+                if isinstance(c, ast.Call) and isinstance(c.func, ast.Attribute) and isinstance(c.func.value, ast.Name) \
+                        and c.func.value.id == it.self_name and c.func.attr in self.lst.methods:
+                    order.append(self.lst.methods[c.func.attr])
+        order += [f for f in self.lst.methods.values() if f not in order]
+        for f in order:
             if not f.is_generator:
                 continue
             start, step = None, None
@@ -77,9 +87,15 @@ class ListFacts:
         raise AnalysisError("forward traversal (iter_nodes) not found: cannot orient head/tail, next/prev")
 
     def mutators(self) -> List[Func]:
+        """the list's operations; private helpers that the class itself calls are analysed where they are called (inlined)"""
+        called_inside = {c.func.attr for g in self.lst.methods.values() if g.self_name is not None for c in ast.walk(g.node)
+                         if isinstance(c, ast.Call) and isinstance(c.func, ast.Attribute) and isinstance(c.func.value, ast.Name)
+                         and c.func.value.id == g.self_name}
         out = []
         for name, f in self.lst.methods.items():
             if name.startswith("__") or f.self_name is None or f.is_generator:
+                continue
+            if name.startswith("_") and name in called_inside:
                 continue
             out.append(f)
         return out
@@ -125,17 +141,41 @@ class _Bypass(Client):
 
     def __init__(self, lf: ListFacts, node: str):
         self.lf, self.node = lf, node
+        self._flows: Dict[int, object] = {}
 
     def should_inline(self, func, call, ctx):
-        return False
+        # private helpers of the list (an extracted `_unlink`) belong to the operation that calls them
+        return func.cls is self.lf.lst and func.name.startswith("_") and not func.name.startswith("__") and len(ctx.interp.stack) < 3
+
+    def _path(self, e, ctx):
+        """dotted path of ``e`` with a leading local expanded to what it was read from (pred = node.prev_node; pred.next = ...)"""
+        from ..flow import Flow
+        d = dotted(e)
+        if not d:
+            return None
+        root = e
+        while isinstance(root, ast.Attribute):
+            root = root.value
+        if isinstance(root, ast.Name) and root.id not in (self.node,) and not ctx.scope.is_self(root):
+            fl = self._flows.get(id(ctx.func.node))
+            if fl is None:
+                fl = self._flows[id(ctx.func.node)] = Flow(ctx.func.node)
+            if isinstance(root.ctx, ast.Load):
+                ex = fl.expand(root)
+                dx = dotted(ex) if ex is not root else None
+                if dx:
+                    return tuple(dx) + tuple(d[1:])
+        return tuple(d)
 
     def event(self, kind, node, state, ctx: Ctx):
         fwd, bwd, ds = state
         lf = self.lf
+        if len(ctx.interp.stack) > 1 and ctx.func.params[1:2] and kind in ("store", "aug"):
+            pass
         if kind == "store" and isinstance(node, ast.Attribute):
             val = assigned_value(node)
-            vd = dotted(val) if val is not None else None
-            td = dotted(node)
+            vd = self._path(val, ctx) if val is not None else None
+            td = self._path(node, ctx)
             if vd and td:
                 # <node.prev>.next = node.next   |  self.head = node.next
                 if vd == (self.node, lf.next_link) and (td == (self.node, lf.prev_link, lf.next_link)
@@ -434,6 +474,7 @@ def r3_guards(prog, rep: Report, lf: ListFacts):
     for f in lf.lst.methods.values():
         if not f.name.startswith("pop"):
             continue
+        f = prog.method_view(lf.lst, f.name)      # private helpers inlined: `return self._pop_node(self.tail)` reads as its body
         rep.fn(f)
         client = _NullGuard(lf)
         it = Interp(prog, client)
